@@ -284,6 +284,7 @@ type LoopSpec struct {
 type ConfigSpec struct {
 	Var      string
 	Lo, Hi   int
+	QLo, QHi int // range used by the quick tier (defaults to Lo..Hi)
 	Bindings []ConfigBinding
 }
 type ConfigBinding struct {
@@ -314,8 +315,11 @@ type Contract struct {
 	Loops      map[int]*LoopSpec
 	Asserts    []AssertSpec
 	Assumes    []AssertSpec
+	Guards     []GuardSpec
+	Splits     []*SplitSpec
 	Lets       []LetSpec
 	Trusted    string
+	Partial    string // verified only for part of the stated range; callers that rely on it say so
 	Inline     bool
 	NoVerify   bool
 	File       string
@@ -324,6 +328,23 @@ type Contract struct {
 	Lemma      bool
 	LemmaSteps []*Clause
 	Allocates  bool
+}
+
+// GuardSpec: "guarded <mutex lvalue> : "family-prefix", ..." — every load/store of a family with one of
+// the prefixes inside this function (and what it inlines) must happen while the mutex is held.
+type GuardSpec struct {
+	Lock     *CExpr
+	Prefixes []string
+	Text     string
+}
+
+// SplitSpec: "split D lo..hi : lvalue = D" — a further case split nested inside the configuration;
+// bounds are integer expressions over the configuration variable and earlier split variables.
+type SplitSpec struct {
+	Var    string
+	Lo, Hi *CExpr
+	LHS    *CExpr
+	Text   string
 }
 
 type LetSpec struct {
@@ -351,7 +372,7 @@ type ContractFile struct {
 var clauseKeywords = map[string]bool{
 	"spec": true, "axiom": true, "devirt": true, "opaque": true, "func": true, "property": true, "returns": true,
 	"config": true, "requires": true, "ensures": true, "modifies": true, "loop": true, "assert": true,
-	"trusted": true, "inline": true, "let": true, "lemma": true, "step": true, "allocates": true, "assume": true,
+	"trusted": true, "inline": true, "let": true, "lemma": true, "step": true, "allocates": true, "assume": true, "guarded": true, "split": true, "partial": true,
 }
 
 func parseContractFile(path, pkgPath string) (*ContractFile, error) {
@@ -484,13 +505,18 @@ func parseContractFile(path, pkgPath string) (*ContractFile, error) {
 				// config M 2..10 : lhs = rhs, lhs = rhs
 				parts := strings.SplitN(rc.text, ":", 2)
 				hd := strings.Fields(parts[0])
-				if len(hd) != 2 || len(parts) != 2 {
-					return nil, fmt.Errorf("%s:%d: config VAR lo..hi : bindings", path, rc.line)
+				if (len(hd) != 2 && len(hd) != 4) || len(parts) != 2 {
+					return nil, fmt.Errorf("%s:%d: config VAR lo..hi [quick lo..hi] : bindings", path, rc.line)
 				}
 				rng := strings.Split(hd[1], "..")
 				lo, _ := strconv.Atoi(rng[0])
 				hi, _ := strconv.Atoi(rng[1])
-				cs := &ConfigSpec{Var: hd[0], Lo: lo, Hi: hi}
+				cs := &ConfigSpec{Var: hd[0], Lo: lo, Hi: hi, QLo: lo, QHi: hi}
+				if len(hd) == 4 && hd[2] == "quick" {
+					q := strings.Split(hd[3], "..")
+					cs.QLo, _ = strconv.Atoi(q[0])
+					cs.QHi, _ = strconv.Atoi(q[1])
+				}
 				for _, b := range splitTopLevel(parts[1], ',') {
 					k := strings.Index(b, " = ")
 					if k < 0 {
@@ -571,6 +597,50 @@ func parseContractFile(path, pkgPath string) (*ContractFile, error) {
 				default:
 					return nil, fmt.Errorf("%s:%d: unknown loop clause %q", path, rc.line, f[1])
 				}
+			case "split":
+				parts := strings.SplitN(rc.text, ":", 2)
+				hd := strings.Fields(parts[0])
+				if len(hd) != 2 || len(parts) != 2 {
+					return nil, fmt.Errorf("%s:%d: split VAR lo..hi : lvalue = VAR", path, rc.line)
+				}
+				rng := strings.SplitN(hd[1], "..", 2)
+				if len(rng) != 2 {
+					return nil, fmt.Errorf("%s:%d: split range lo..hi", path, rc.line)
+				}
+				lo, err := parseCExpr(rng[0])
+				if err != nil {
+					return nil, fmt.Errorf("%s:%d: %v", path, rc.line, err)
+				}
+				hi, err := parseCExpr(rng[1])
+				if err != nil {
+					return nil, fmt.Errorf("%s:%d: %v", path, rc.line, err)
+				}
+				k := strings.Index(parts[1], " = ")
+				if k < 0 {
+					return nil, fmt.Errorf("%s:%d: split binding needs ' = '", path, rc.line)
+				}
+				lhs, err := parseCExpr(strings.TrimSpace(parts[1][:k]))
+				if err != nil {
+					return nil, fmt.Errorf("%s:%d: %v", path, rc.line, err)
+				}
+				cur.Splits = append(cur.Splits, &SplitSpec{Var: hd[0], Lo: lo, Hi: hi, LHS: lhs, Text: rc.text})
+			case "guarded":
+				k := strings.Index(rc.text, ":")
+				if k < 0 {
+					return nil, fmt.Errorf("%s:%d: guarded LOCK : \"prefix\", ...", path, rc.line)
+				}
+				le, err := parseCExpr(strings.TrimSpace(rc.text[:k]))
+				if err != nil {
+					return nil, fmt.Errorf("%s:%d: %v", path, rc.line, err)
+				}
+				gs := GuardSpec{Lock: le, Text: rc.text}
+				for _, pf := range strings.Split(rc.text[k+1:], ",") {
+					pf = strings.Trim(strings.TrimSpace(pf), "\"")
+					if pf != "" {
+						gs.Prefixes = append(gs.Prefixes, pf)
+					}
+				}
+				cur.Guards = append(cur.Guards, gs)
 			case "assume":
 				// assume at call <external callee> : expr   (about results of a call that is not followed; listed as an assumption)
 				t := strings.TrimSpace(strings.TrimPrefix(rc.text, "at"))
@@ -600,6 +670,8 @@ func parseContractFile(path, pkgPath string) (*ContractFile, error) {
 				if cur.Trusted == "" {
 					cur.Trusted = "trusted"
 				}
+			case "partial":
+				cur.Partial = rc.text
 			case "inline":
 				cur.Inline = true
 			case "allocates":
